@@ -2686,6 +2686,7 @@ func (self *TextServerProtocol) commandHandlerLock(_ *TextServerProtocol, args [
 			}
 			self.glock.Unlock()
 		}
+		lockCommand.CommandType = protocol.COMMAND_LOCK
 		_ = self.willCommands.Push(lockCommand)
 		return self.stream.WriteBytes(self.parser.BuildResponse(true, "OK", nil))
 	}
@@ -2731,6 +2732,7 @@ func (self *TextServerProtocol) commandHandlerUnlock(_ *TextServerProtocol, args
 			}
 			self.glock.Unlock()
 		}
+		lockCommand.CommandType = protocol.COMMAND_UNLOCK
 		_ = self.willCommands.Push(lockCommand)
 		return self.stream.WriteBytes(self.parser.BuildResponse(true, "OK", nil))
 	}
